@@ -15,9 +15,12 @@
 import Nq.Lemmas.SmtpSession
 import Nq.Lemmas.SmtpAddr
 import Nq.Lemmas.SmtpLip
+import Nq.Lemmas.SmtpCmdSpec
+import Nq.Lemmas.SmtpPolicyDoc
 
 namespace Nq.Props.C08
 open Nq Nq.SmtpIn Nq.SmtpSession Nq.SmtpPolicy Nq.Lemmas.Smtp
+open Nq.Substdio Nq.SmtpIO Nq.SmtpCmdIO Nq.CmdLineSpec Nq.SmtpPolicyDoc Nq.Lemmas.SmtpCmd Nq.Lemmas.SmtpDoc
 
 /-- **Sequencing.** Whenever an envelope is handed to the queue, the trace before that point ends in
 `MAIL` answered 250 (whose parsed address is the envelope sender), followed by events none of which is
@@ -196,6 +199,113 @@ theorem C08_verbs :
     verbOf [81, 85, 73, 84] = .quit ∧ verbOf [] = .unimpl ∧ verbOf [77, 65, 73, 76, 70] = .unimpl := by
   decide
 
+/-! ### Framing: from the byte stream, through substdio, to the calls `commands()` makes
+
+`SmtpCmdIO.commandsIO` is commands.c over a buffered descriptor (`Nq.Substdio.ISt`: any buffer size, any read
+script = any chunking the kernel may choose, failing reads included) with an arbitrary command table;
+`CmdLineSpec` is the independently written meaning of a command stream. -/
+
+/-- **The independent splitter is well defined**: the executable functions the oracle runs satisfy the declarative
+relations (`IsLines`: the stream is the lines, each followed by LF, then an LF-free rest; `IsSplit`: one CR before
+the LF dropped, cut at the first NUL, verb = up to the first space, argument = after the run of spaces), and the
+relations determine their result. -/
+theorem C08_frame_spec_wd (inp : Bytes) :
+    IsLines inp (specLines inp) (specTail inp) ∧
+    (∀ ls tail, IsLines inp ls tail → ls = specLines inp ∧ tail = specTail inp) ∧
+    (∀ l, IsSplit l (specSplit l).1 (specSplit l).2) ∧
+    (∀ l v a, IsSplit l v a → specSplit l = (v, a)) :=
+  ⟨isLines_spec _ inp (Nat.lt_succ_self _), fun ls tail h => isLines_unique ls inp tail h, isSplit_spec, isSplit_unique⟩
+
+/-- **Framing, every table, every buffer state, every read script.** The calls made are exactly the spec's calls
+on the bytes delivered before the first failing read — all pending bytes, and return value 0, when no read fails;
+-1 is returned only after a failing read. -/
+theorem C08_frame_io (table : List Bytes) (s : ISt) (h : IWF s) :
+    ∃ pre, pre <+: pending s ∧ (commandsIO table s).1 = specCalls table pre ∧
+      ((commandsIO table s).2 = .err → 0 ∈ s.rs) ∧
+      (0 ∉ s.rs → pre = pending s ∧ (commandsIO table s).2 = .eof) := by
+  obtain ⟨pre, h1, h2, h3, h4⟩ := commandsIO_spec table s h
+  exact ⟨pre, h1, by rw [h2, cmds_spec], h3, h4⟩
+
+/-- **Framing, declaratively, for every chunking.** However the stream `inp` is cut into reads (buffer size `size`,
+read script `rs` without a failing read) and whatever lines `ls` it consists of: `commands()` makes one call per
+line, in order, each with the table entry selected by the line's verb (first text equal ignoring case, else the
+catch-all) and the line's argument, verb and argument being related to the line by `IsSplit`; then returns 0. -/
+theorem C08_frame (table : List Bytes) (size : Nat) (inp : Bytes) (rs : List Nat) (hrs : 0 ∉ rs)
+    (ls : List Bytes) (tail : Bytes) (hl : IsLines inp ls tail) :
+    commandsIO table (istart size inp rs) = (ls.map (fun l => (specIdx table (specSplit l).1, (specSplit l).2)), .eof) ∧
+    ∀ l ∈ ls, IsSplit l (specSplit l).1 (specSplit l).2 := by
+  obtain ⟨pre, _, h2, _, h4⟩ := C08_frame_io table (istart size inp rs) (istart_IWF size inp rs)
+  obtain ⟨e1, e2⟩ := h4 hrs
+  rw [istart_pending] at e1
+  subst e1
+  obtain ⟨r1, _⟩ := isLines_unique ls pre tail hl
+  refine ⟨?_, fun l _ => isSplit_spec l⟩
+  rw [Prod.ext_iff]
+  exact ⟨by rw [h2, r1]; rfl, e2⟩
+
+/-- the session model's line reader, line parser and verb table are the spec's -/
+theorem C08_parse_spec (inp l v : Bytes) :
+    readLine inp = specFirstLine inp ∧ parseLine l = specParse l ∧ verbOf v = specVerb v ∧
+    (∀ s t, ciEqB s t = true ↔ lower s = lower t) :=
+  ⟨(specFirstLine_eq inp).symm, (specParse_eq l).symm, (specVerb_eq v).symm, ciEqB_iff⟩
+
+/-- **Sessions over substdio.** qmail-smtpd's loop — `commands()` reading `ssin` byte by byte, `smtp_data` running
+`blast()` on the same `ssin` — over any buffer state and any read script without a failing read is the byte-level
+session `run` on the bytes still to come: no chunking changes what is dispatched, answered or queued. -/
+theorem C08_io_run (cfg : Cfg) (qq : QQ) (i : ISt) (h : IWF i) (hrs : 0 ∉ i.rs) : runIO cfg qq i = run cfg qq (pending i) :=
+  runIO_eq cfg qq i h hrs
+
+/-- **Sequencing, lifted to raw byte streams and every chunking.** -/
+theorem C08_submit_bytes (cfg : Cfg) (qq : QQ) (size : Nat) (inp : Bytes) (rs : List Nat) (hrs : 0 ∉ rs)
+    (pre post : List Ev) (c : Cmd) (o : Out) (sub : Submit)
+    (ht : runIO cfg qq (istart size inp rs) = pre ++ (c, o) :: post) (hs : o.submit = some sub) : SubmitOK cfg pre sub := by
+  rw [C08_io_run cfg qq _ (istart_IWF size inp rs) hrs, C08_run_is_trace] at ht
+  exact C08_submit cfg _ pre post c o sub ht hs
+
+/-- **Gating, lifted to raw byte streams and every chunking**, in both forms: the trace predicate `GateOK` and the
+documented rules `GateDoc`. -/
+theorem C08_gate_bytes (cfg : Cfg) (hl : MoreLower cfg) (qq : QQ) (size : Nat) (inp : Bytes) (rs : List Nat) (hrs : 0 ∉ rs)
+    (pre post : List Ev) (arg : Bytes) (o : Out)
+    (ht : runIO cfg qq (istart size inp rs) = pre ++ (.rcpt arg, o) :: post) :
+    (o.replies = [.rcptok] ↔ GateOK cfg pre arg) ∧ (o.replies = [.rcptok] ↔ GateDoc cfg pre arg) := by
+  rw [C08_io_run cfg qq _ (istart_IWF size inp rs) hrs, C08_run_is_trace] at ht
+  have := C08_gate cfg hl _ pre post arg o ht
+  exact ⟨this, this.trans (gateDoc_iff cfg pre arg).symm⟩
+
+/-! ### The documented rules (qmail-smtpd.8), written without the model's vocabulary -/
+
+/-- **badmailfrom, documented rule**: a sender is refused iff some line equals the whole address or equals `@host`
+for the address's host part (what follows its last `@`), ignoring ASCII case (`CiEq`: position-wise, no `lower`). -/
+theorem C08_bmf_doc (cfg : Cfg) (a : Bytes) : bmfcheck cfg a = true ↔ BadSenderDoc cfg a :=
+  (bmf_iff cfg a).trans (badSenderDoc_iff cfg a).symm
+
+/-- **rcpthosts / morercpthosts, documented rule**: no rcpthosts file, or no `@`, or the (non-empty) host part is a
+listed host or ends with a listed `.suffix`, ignoring case. -/
+theorem C08_rcpthosts_doc (cfg : Cfg) (hl : MoreLower cfg) (a : Bytes) : rcpthostsMatch cfg a = true ↔ RcptHostOK cfg a :=
+  (match_iff cfg hl a).trans (rcptHostOK_iff cfg a).symm
+
+/-- **The RCPT decision with RELAYCLIENT.** In an open transaction with an unflagged sender, a recipient that parses
+to `a` is answered 250 iff the documented rule gives a stored form (RELAYCLIENT set: always, `a ++ $RELAYCLIENT`;
+otherwise `a` itself if its host is allowed); that form is what is appended to the recipient list; otherwise the
+state is untouched. -/
+theorem C08_rcpt_doc (cfg : Cfg) (hl : MoreLower cfg) (s : Sess) (arg a : Bytes) (h1 : s.seenmail = true) (h2 : s.flagbarf = false)
+    (ha : addrparse cfg arg = some a) :
+    ((sstep cfg s (.rcpt arg)).2.replies = [.rcptok] ↔ ∃ stored, RcptDoc cfg a stored) ∧
+    (∀ stored, RcptDoc cfg a stored → (sstep cfg s (.rcpt arg)).1 = { s with rcptto := s.rcptto ++ [stored] }) ∧
+    ((¬ ∃ stored, RcptDoc cfg a stored) → (sstep cfg s (.rcpt arg)).1 = s) :=
+  rcpt_step_doc cfg hl s arg a h1 h2 ha
+
+/-- **Gating by the documented rules, whole sessions.** -/
+theorem C08_gate_doc (cfg : Cfg) (hl : MoreLower cfg) (cs : List Cmd) (pre post : List Ev) (arg : Bytes) (o : Out)
+    (ht : trace cfg {} cs = pre ++ (.rcpt arg, o) :: post) : o.replies = [.rcptok] ↔ GateDoc cfg pre arg :=
+  (C08_gate cfg hl cs pre post arg o ht).trans (gateDoc_iff cfg pre arg).symm
+
+/-- the Boolean forms of the documented rules which the driver evaluates are the rules -/
+theorem C08_oracle_doc_iff (cfg : Cfg) (pre : List Ev) (a arg stored : Bytes) :
+    (badSenderDocB cfg a = true ↔ BadSenderDoc cfg a) ∧ (rcptHostOKB cfg a = true ↔ RcptHostOK cfg a) ∧
+    (rcptDocB cfg a = some stored ↔ RcptDoc cfg a stored) ∧ (gateDocB cfg pre arg = true ↔ GateDoc cfg pre arg) :=
+  ⟨badSenderDocB_iff cfg a, rcptHostOKB_iff cfg a, rcptDocB_iff cfg a stored, gateDocB_iff cfg pre arg⟩
+
 /-! ### Non-vacuity -/
 
 /-- rcpthosts = {local.example → "l.e", ".w.e"}; a session MAIL, RCPT ok, RCPT foreign, DATA submits exactly one recipient -/
@@ -220,5 +330,33 @@ example : addrparse { liphost := some [108, 46, 101], ipme := [(127, 0, 0, 1)] }
     some [97, 32, 98, 64, 120, 64, 108, 46, 101] := by decide
 
 example : MoreLower cfgEx := by intro ks h; simp [cfgEx] at h
+
+-- table ["a", "AB", "ab", ""]; stream "aB  x\r\n\n a\0b\nAb" read through a 2-byte buffer in reads of 1, 1, 3, … bytes:
+-- three calls (entry 1 "AB" with argument "x"; the empty verb selects entry 3; again entry 3 with argument "a"), the
+-- unterminated "Ab" is not a command
+def tabEx : List Bytes := [[97], [65, 66], [97, 98], []]
+def inEx : Bytes := [97, 66, 32, 32, 120, 13, 10, 10, 32, 97, 0, 98, 10, 65, 98]
+
+example : commandsIO tabEx (istart 2 inEx [1, 1, 3]) = ([(1, [120]), (3, []), (3, [97])], .eof) := by decide
+example : specCalls tabEx inEx = [(1, [120]), (3, []), (3, [97])] := by decide
+example : IsLines inEx [[97, 66, 32, 32, 120, 13], [], [32, 97, 0, 98]] [65, 98] := by
+  refine ⟨by decide, ?_, by decide⟩
+  intro l hl; simp at hl; rcases hl with rfl | rfl | rfl <;> decide
+example : IsSplit [97, 66, 32, 32, 120, 13] [97, 66] [120] :=
+  ⟨[97, 66, 32, 32, 120], [97, 66, 32, 32, 120], [], [32, 32], Or.inl rfl, by simp, by decide, Or.inl rfl, rfl, by decide,
+   by decide, by decide, by decide⟩
+-- a failing read (script entry 0) after 3 + 4 + 2 bytes: -1, and only the lines complete by then
+example : commandsIO tabEx (istart 4 inEx [3, 5, 2, 0]) = ([(1, [120]), (3, [])], .err) := by decide
+
+-- "MAIL <s@x>\r\nRCPT <u@L.E>\nDATA\r\nx\r\n.\r\nQUIT\n" one byte per read: one envelope, then QUIT
+example : (runIO cfgEx {} (istart 8 [77, 65, 73, 76, 32, 60, 115, 64, 120, 62, 13, 10, 82, 67, 80, 84, 32, 60, 117, 64, 76, 46, 69, 62, 10,
+      68, 65, 84, 65, 13, 10, 120, 13, 10, 46, 13, 10, 81, 85, 73, 84, 10] (List.replicate 50 1))).map (fun x => (x.2.replies, x.2.submit)) =
+    [([.mailok], none), ([.rcptok], none), ([.go, .accepted], some ⟨[115, 64, 120], [[117, 64, 76, 46, 69]], []⟩), ([.quit], none)] := by decide
+
+-- documented rules on cfgEx: "u@a.W.e" is listed by ".w.e", "u@w.e" is not; "s@B" is a bad sender through "@b"
+example : RcptHostOK cfgEx [117, 64, 97, 46, 87, 46, 101] := (rcptHostOKB_iff _ _).1 (by decide)
+example : ¬ RcptHostOK cfgEx [117, 64, 119, 46, 101] := fun h => absurd ((rcptHostOKB_iff _ _).2 h) (by decide)
+example : BadSenderDoc cfgEx [115, 64, 66] := (badSenderDocB_iff _ _).1 (by decide)
+example : RcptDoc { relay := some [64, 114] } [117] [117, 64, 114] := rfl
 
 end Nq.Props.C08
